@@ -81,9 +81,10 @@ KEYS = ['x', 'y']
 
 def e_exports(ops: List[Tuple[int, int, int]]) -> bool:
     """exports of frame k are handed exactly to frame k-1: histories of push (include a
-    submodule) / export(key=value) / pop (return from the submodule) over a stack of depth <= 3;
-    a root-level export raises
-    pre: len(ops) <= param('NO', 4) and all(0 <= o < 3 and 0 <= k < 2 and 0 <= v < 3 for o, k, v in ops)
+    submodule) / export(key=value) / pop (return from the submodule) / failing submodule (its
+    script raises and the including script catches the error) over a stack of depth <= 3; a
+    root-level export raises
+    pre: len(ops) <= param('NO', 4) and all(0 <= o < 4 and 0 <= k < 2 and 0 <= v < 3 for o, k, v in ops)
     pre: param('P0', -1) < 0 or (len(ops) == param('NO', 4) and ops[0][0] * 2 + ops[0][1] == param('P0', -1))
     post: _
     """
@@ -116,6 +117,16 @@ def e_exports(ops: List[Tuple[int, int, int]]) -> bool:
             want = model.pop()
             if got != want:
                 ok = False
+        elif o == 3 and len(model) > 1:
+            # the submodule's script raises; the including script catches it and carries on
+            e = ValueError('submodule failed')
+            try:
+                swallowed = cms.pop().__exit__(ValueError, e, None)
+            except ValueError:
+                swallowed = False
+            if swallowed:
+                ok = False
+            model.pop()
         if len(ctx.path_stack) != len(model):
             ok = False
     return R(ok)
